@@ -15,8 +15,6 @@ NOT_APPLICABLE = {
     "C23": "formatter round trip on program text: " + PURE,
     "C24": "rejection of invalid programs: " + PURE,
     # not yet built (kept honest: listed until a check exists)
-    "C05": "check not built yet in this session (planned, DESIGN.md section 3)",
-    "C07": "check not built yet in this session (planned, DESIGN.md section 3)",
     "C11": "check not built yet in this session (planned, DESIGN.md section 3)",
 }
 
@@ -106,5 +104,17 @@ CHECK_META = {
         design_ref="DESIGN.md section 3, C17",
         text="exploration: seeded interleavings of 1-4 writers, accept loop, per-connection readers, the closer and the deadline setter, with cancellation at arbitrary steps",
         note="covers unix/tcp stream sockets and unixgram/udp datagram sockets through a stub transport; named pipes and stdin are not covered (stated in evidence)",
+    ),
+    "C07": dict(
+        technique="deterministic simulation of the clock: real compiler + VM under the bubble's fake time with advances and New-Year jumps between lines; independent time.Parse-based model",
+        design_ref="DESIGN.md section 3, C07",
+        text="exploration: seeded layout sets, zones, options, value histories (valid, invalid, cross-layout, repeated) and clock jumps; every line compared with the model",
+        note="sampling; no schedule dimension (single VM driven synchronously); datum stamps compared for representable instants only",
+    ),
+    "C05": dict(
+        technique="deterministic simulation of the clock with a twin-VM oracle: history-carrying VM vs freshly loaded copy with the same metric contents, same line, same simulated instant",
+        design_ref="DESIGN.md section 3, C05",
+        text="exploration: seeded programs from state-stressing rules x histories with clock jumps, repeated timestamp strings, runtime errors and stop; differential on the last line",
+        note="sampling; no schedule dimension; the oracle needs no model of the language",
     ),
 }
